@@ -1,0 +1,242 @@
+//go:build verif
+
+package client
+
+// Contracts for the govc verifier (/verif). Comment-only.
+//
+// The codecs below are inlined into the round-trip harnesses (zz_harness_verif.go); what is
+// written here are the loop invariants of their list loops, stated over the token-stream
+// model: ntok/rpos = tokens written / read position, tokkind/tokval = kind and payload of a
+// token, sinceloop(e) = e with old() meaning "on first arrival at this loop".
+
+//@ spec wrote(w, i) = sinceloop(toksame(w) && ntok(w) == old(ntok(w)) + i && rpos(w) == old(rpos(w)))
+//@ spec readn(r, i) = sinceloop(rpos(r) == old(rpos(r)) + i)
+
+// ---- lists of uint32 indexes written as varints -------------------------------------------
+
+//@ func (SubscribeTx).Serialize
+//@   inline
+//@   loop 0 invariant 0 <= _i && _i <= len(m.Indexes) && wrote(w, _i)
+//@   loop 0 invariant sinceloop(forall(q, old(ntok(w)), old(ntok(w)) + _i, tokkind(w, q) == 1 && tokval(w, q) == m.Indexes[q - old(ntok(w))]))
+
+//@ func (*SubscribeTx).Deserialize
+//@   serves C20
+//@   inline
+//@   safety index nil alloc allocbound
+//@   loop 0 invariant 0 <= _i && _i <= len(m.Indexes) && m != nil && len(m.Indexes) == count && readn(r, _i)
+//@   loop 0 invariant sinceloop(forall(k, 0, _i, m.Indexes[k] == uint32(tokval(r, old(rpos(r)) + k))))
+//@   loop 0 invariant sinceloop(same(m.Indexes) && oldrowsExcept(m.Indexes, arr(m.Indexes)))
+
+//@ func (UnsubscribeTx).Serialize
+//@   inline
+//@   loop 0 invariant 0 <= _i && _i <= len(m.Indexes) && wrote(w, _i)
+//@   loop 0 invariant sinceloop(forall(q, old(ntok(w)), old(ntok(w)) + _i, tokkind(w, q) == 1 && tokval(w, q) == m.Indexes[q - old(ntok(w))]))
+
+//@ func (*UnsubscribeTx).Deserialize
+//@   serves C20
+//@   inline
+//@   safety index nil alloc allocbound
+//@   loop 0 invariant 0 <= _i && _i <= len(m.Indexes) && m != nil && len(m.Indexes) == count && readn(r, _i)
+//@   loop 0 invariant sinceloop(forall(k, 0, _i, m.Indexes[k] == uint32(tokval(r, old(rpos(r)) + k))))
+//@   loop 0 invariant sinceloop(same(m.Indexes) && oldrowsExcept(m.Indexes, arr(m.Indexes)))
+
+//@ func (SendTx).Serialize
+//@   inline
+//@   loop 0 invariant 0 <= _i && _i <= len(m.Indexes) && wrote(w, _i)
+//@   loop 0 invariant sinceloop(forall(q, old(ntok(w)), old(ntok(w)) + _i, tokkind(w, q) == 1 && tokval(w, q) == m.Indexes[q - old(ntok(w))]))
+
+//@ func (*SendTx).Deserialize
+//@   serves C20
+//@   inline
+//@   safety index nil alloc allocbound
+//@   loop 0 invariant 0 <= _i && _i <= len(m.Indexes) && m != nil && len(m.Indexes) == count && readn(r, _i)
+//@   loop 0 invariant sinceloop(forall(k, 0, _i, m.Indexes[k] == uint32(tokval(r, old(rpos(r)) + k))))
+//@   loop 0 invariant sinceloop(same(m.Indexes, m.Tx) && oldrowsExcept(m.Indexes, arr(m.Indexes)))
+
+// ---- lists of outpoints (one object token each) ---------------------------------------------
+
+//@ func (SubscribeOutputs).Serialize
+//@   inline
+//@   loop 0 invariant 0 <= _i && _i <= len(m.Outputs) && wrote(w, _i)
+//@   loop 0 invariant sinceloop(forall(q, old(ntok(w)), old(ntok(w)) + _i, tokkind(w, q) == objkind(wire.OutPoint) && tokval(w, q) == enc(*m.Outputs[q - old(ntok(w))])))
+
+//@ func (*SubscribeOutputs).Deserialize
+//@   serves C20
+//@   inline
+//@   safety index nil alloc allocbound
+//@   loop 0 invariant 0 <= _i && _i <= len(m.Outputs) && m != nil && len(m.Outputs) == count && readn(r, _i)
+//@   loop 0 invariant sinceloop(forall(k, 0, _i, m.Outputs[k] != nil && *m.Outputs[k] == decode(tokval(r, old(rpos(r)) + k), wire.OutPoint)))
+//@   loop 0 invariant sinceloop(same(m.Outputs) && oldrowsExcept(m.Outputs, arr(m.Outputs)))
+//@   loop 0 invariant sinceloop(forall(p *wire.OutPoint, !fresh(p) ==> same(p.Hash, p.Index)))
+
+//@ func (UnsubscribeOutputs).Serialize
+//@   inline
+//@   loop 0 invariant 0 <= _i && _i <= len(m.Outputs) && wrote(w, _i)
+//@   loop 0 invariant sinceloop(forall(q, old(ntok(w)), old(ntok(w)) + _i, tokkind(w, q) == objkind(wire.OutPoint) && tokval(w, q) == enc(*m.Outputs[q - old(ntok(w))])))
+
+//@ func (*UnsubscribeOutputs).Deserialize
+//@   serves C20
+//@   inline
+//@   safety index nil alloc allocbound
+//@   loop 0 invariant 0 <= _i && _i <= len(m.Outputs) && m != nil && len(m.Outputs) == count && readn(r, _i)
+//@   loop 0 invariant sinceloop(forall(k, 0, _i, m.Outputs[k] != nil && *m.Outputs[k] == decode(tokval(r, old(rpos(r)) + k), wire.OutPoint)))
+//@   loop 0 invariant sinceloop(same(m.Outputs) && oldrowsExcept(m.Outputs, arr(m.Outputs)))
+//@   loop 0 invariant sinceloop(forall(p *wire.OutPoint, !fresh(p) ==> same(p.Hash, p.Index)))
+
+// ---- ReprocessTx: list of Hash20 values ------------------------------------------------------
+
+//@ func (ReprocessTx).Serialize
+//@   inline
+//@   loop 0 invariant 0 <= _i && _i <= len(m.ClientIDs) && wrote(w, _i)
+//@   loop 0 invariant sinceloop(forall(q, old(ntok(w)), old(ntok(w)) + _i, tokkind(w, q) == objkind(bitcoin.Hash20) && tokval(w, q) == enc(m.ClientIDs[q - old(ntok(w))])))
+
+//@ func (*ReprocessTx).Deserialize
+//@   serves C20
+//@   inline
+//@   safety index nil alloc allocbound
+//@   loop 0 invariant 0 <= _i && _i <= len(m.ClientIDs) && m != nil && len(m.ClientIDs) == clientCount && readn(r, _i)
+//@   loop 0 invariant sinceloop(forall(k, 0, _i, m.ClientIDs[k] == decode(tokval(r, old(rpos(r)) + k), bitcoin.Hash20)))
+//@   loop 0 invariant sinceloop(same(m.ClientIDs, m.TxID) && oldrowsExcept(m.ClientIDs, arr(m.ClientIDs)))
+
+// ---- Headers: list of block headers (flat objects) -------------------------------------------
+
+//@ func (Headers).Serialize
+//@   inline
+//@   loop 0 invariant 0 <= _i && _i <= len(m.Headers) && wrote(w, _i)
+//@   loop 0 invariant sinceloop(forall(q, old(ntok(w)), old(ntok(w)) + _i, tokkind(w, q) == objkind(wire.BlockHeader) && tokval(w, q) == enc(*m.Headers[q - old(ntok(w))])))
+
+//@ func (*Headers).Deserialize
+//@   serves C20
+//@   inline
+//@   safety index nil alloc allocbound
+//@   loop 0 invariant 0 <= _i && _i <= len(m.Headers) && m != nil && len(m.Headers) == count && readn(r, _i)
+//@   loop 0 invariant sinceloop(forall(k, 0, _i, m.Headers[k] != nil && *m.Headers[k] == decode(tokval(r, old(rpos(r)) + k), wire.BlockHeader)))
+//@   loop 0 invariant sinceloop(same(m.Headers, m.RequestHeight, m.StartHeight) && oldrowsExcept(m.Headers, arr(m.Headers)))
+//@   loop 0 invariant sinceloop(forall(p *wire.BlockHeader, !fresh(p) ==> *p == old(*p)))
+
+// ---- push data: varint length + bytes ---------------------------------------------------------
+
+//@ func (SubscribePushData).Serialize
+//@   inline
+//@   loop 0 invariant 0 <= _i && _i <= len(m.PushDatas) && wrote(w, 2 * _i)
+//@   loop 0 invariant sinceloop(forall(q, old(ntok(w)), old(ntok(w)) + 2*_i, ite((q - old(ntok(w))) % 2 == 0,
+//@        tokkind(w, q) == 1 && tokval(w, q) == len(m.PushDatas[(q - old(ntok(w))) / 2]),
+//@        tokkind(w, q) == 3 && tokval(w, q) == blob(m.PushDatas[(q - old(ntok(w))) / 2]) && bloblen(tokval(w, q)) == len(m.PushDatas[(q - old(ntok(w))) / 2]))))
+
+//@ func (*SubscribePushData).Deserialize
+//@   serves C20
+//@   inline
+//@   safety index nil alloc allocbound
+//@   loop 0 invariant 0 <= i && i <= count && m != nil && readn(r, 2 * i) && sinceloop(len(m.PushDatas) == old(len(m.PushDatas)) + i)
+//@   loop 0 invariant sinceloop(forall(k, 0, i, len(m.PushDatas[old(len(m.PushDatas)) + k]) == tokval(r, old(rpos(r)) + 2*k)
+//@        && (len(m.PushDatas[old(len(m.PushDatas)) + k]) > 0 ==> blob(m.PushDatas[old(len(m.PushDatas)) + k]) == tokval(r, old(rpos(r)) + 2*k + 1))))
+//@   loop 0 invariant sinceloop(oldblobs() && oldrowsExcept(m.PushDatas, arr(old(m.PushDatas))) && (arr(m.PushDatas) == arr(old(m.PushDatas)) || fresharr(m.PushDatas)))
+
+//@ func (UnsubscribePushData).Serialize
+//@   inline
+//@   loop 0 invariant 0 <= _i && _i <= len(m.PushDatas) && wrote(w, 2 * _i)
+//@   loop 0 invariant sinceloop(forall(q, old(ntok(w)), old(ntok(w)) + 2*_i, ite((q - old(ntok(w))) % 2 == 0,
+//@        tokkind(w, q) == 1 && tokval(w, q) == len(m.PushDatas[(q - old(ntok(w))) / 2]),
+//@        tokkind(w, q) == 3 && tokval(w, q) == blob(m.PushDatas[(q - old(ntok(w))) / 2]) && bloblen(tokval(w, q)) == len(m.PushDatas[(q - old(ntok(w))) / 2]))))
+
+//@ func (*UnsubscribePushData).Deserialize
+//@   serves C20
+//@   inline
+//@   safety index nil alloc allocbound
+//@   loop 0 invariant 0 <= i && i <= count && m != nil && readn(r, 2 * i) && sinceloop(len(m.PushDatas) == old(len(m.PushDatas)) + i)
+//@   loop 0 invariant sinceloop(forall(k, 0, i, len(m.PushDatas[old(len(m.PushDatas)) + k]) == tokval(r, old(rpos(r)) + 2*k)
+//@        && (len(m.PushDatas[old(len(m.PushDatas)) + k]) > 0 ==> blob(m.PushDatas[old(len(m.PushDatas)) + k]) == tokval(r, old(rpos(r)) + 2*k + 1))))
+//@   loop 0 invariant sinceloop(oldblobs() && oldrowsExcept(m.PushDatas, arr(old(m.PushDatas))) && (arr(m.PushDatas) == arr(old(m.PushDatas)) || fresharr(m.PushDatas)))
+
+// ---- MerkleProof: path hashes, header, duplicated indexes ------------------------------------
+
+//@ func (MerkleProof).Serialize
+//@   inline
+//@   loop 0 invariant 0 <= _i && _i <= len(m.Path) && wrote(w, _i)
+//@   loop 0 invariant sinceloop(forall(q, old(ntok(w)), old(ntok(w)) + _i, tokkind(w, q) == objkind(bitcoin.Hash32) && tokval(w, q) == enc(m.Path[q - old(ntok(w))])))
+//@   loop 1 invariant 0 <= _i && _i <= len(m.DuplicatedIndexes) && wrote(w, _i)
+//@   loop 1 invariant sinceloop(forall(q, old(ntok(w)), old(ntok(w)) + _i, tokkind(w, q) == 1 && tokval(w, q) == m.DuplicatedIndexes[q - old(ntok(w))]))
+
+//@ func (*MerkleProof).Deserialize
+//@   serves C20
+//@   inline
+//@   safety index nil alloc allocbound
+//@   loop 0 invariant 0 <= i && i <= count && m != nil && len(m.Path) == count && readn(r, i)
+//@   loop 0 invariant sinceloop(forall(k, 0, i, m.Path[k] == decode(tokval(r, old(rpos(r)) + k), bitcoin.Hash32)))
+//@   loop 0 invariant sinceloop(same(m.Path, m.Index) && oldrowsExcept(m.Path, arr(m.Path)))
+//@   loop 1 invariant 0 <= i && i <= count && m != nil && len(m.DuplicatedIndexes) == count && readn(r, i)
+//@   loop 1 invariant sinceloop(forall(k, 0, i, m.DuplicatedIndexes[k] == tokval(r, old(rpos(r)) + k)))
+//@   loop 1 invariant sinceloop(same(m.Path, m.Index, m.BlockHeader, m.DuplicatedIndexes) && oldrowsExcept(m.DuplicatedIndexes, arr(m.DuplicatedIndexes)))
+
+// ---- Tx: one TxOut object per input of the transaction ---------------------------------------
+
+//@ func (Tx).Serialize
+//@   inline
+//@   loop 0 invariant 0 <= _i && _i <= len(m.Outputs) && wrote(w, _i)
+//@   loop 0 invariant sinceloop(forall(q, old(ntok(w)), old(ntok(w)) + _i, tokkind(w, q) == objkind(wire.TxOut) && tokval(w, q) == abs(m.Outputs[q - old(ntok(w))])))
+
+//@ func (*Tx).Deserialize
+//@   serves C20
+//@   inline
+//@   safety index nil alloc allocbound
+//@   loop 0 invariant 0 <= _i && _i <= len(m.Tx.TxIn) && m != nil && m.Tx != nil && len(m.Outputs) == len(m.Tx.TxIn) && readn(r, _i)
+//@   loop 0 invariant sinceloop(forall(k, 0, _i, m.Outputs[k] != nil && abs(m.Outputs[k]) == tokval(r, old(rpos(r)) + k)))
+//@   loop 0 invariant sinceloop(same(m.Outputs, m.Tx, m.ID, m.Tx.TxIn, abs(m.Tx)) && oldrowsExcept(m.Outputs, arr(m.Outputs)))
+//@   loop 0 invariant sinceloop(forall(p *wire.TxOut, !fresh(p) ==> abs(p) == old(abs(p))))
+
+// ---- PostMerkleProofs: list of dependency merkle proofs ---------------------------------------
+
+//@ func (PostMerkleProofs).Serialize
+//@   inline
+//@   loop 0 invariant 0 <= _i && _i <= len(m.MerkleProofs) && wrote(w, _i)
+//@   loop 0 invariant sinceloop(forall(q, old(ntok(w)), old(ntok(w)) + _i, tokkind(w, q) == objkind(merkle_proof.MerkleProof) && tokval(w, q) == enc(*m.MerkleProofs[q - old(ntok(w))])))
+
+//@ func (*PostMerkleProofs).Deserialize
+//@   serves C20
+//@   inline
+//@   safety index nil alloc allocbound
+//@   loop 0 invariant 0 <= _i && _i <= len(m.MerkleProofs) && m != nil && len(m.MerkleProofs) == count && readn(r, _i)
+//@   loop 0 invariant sinceloop(forall(k, 0, _i, m.MerkleProofs[k] != nil && *m.MerkleProofs[k] == decode(tokval(r, old(rpos(r)) + k), merkle_proof.MerkleProof)))
+//@   loop 0 invariant sinceloop(same(m.MerkleProofs) && oldrowsExcept(m.MerkleProofs, arr(m.MerkleProofs)))
+//@   loop 0 invariant sinceloop(forall(p *merkle_proof.MerkleProof, !fresh(p) ==> *p == old(*p)))
+
+// ---- FeeQuotes: five tokens per quote ----------------------------------------------------------
+
+//@ spec fq(m, q, n) = m.FeeQuotes[(q - n) / 5]
+
+//@ func (FeeQuotes).Serialize
+//@   inline
+//@   loop 0 invariant 0 <= _i && _i <= len(m.FeeQuotes) && wrote(w, 5 * _i)
+//@   loop 0 invariant sinceloop(forall(q, old(ntok(w)), old(ntok(w)) + 5*_i,
+//@        ite((q - old(ntok(w))) % 5 == 0, tokkind(w, q) == fixedkind(uint8) && tokval(w, q) == fq(m, q, old(ntok(w))).FeeType,
+//@        ite((q - old(ntok(w))) % 5 == 1, tokkind(w, q) == 1 && tokval(w, q) == fq(m, q, old(ntok(w))).MiningFee.Satoshis,
+//@        ite((q - old(ntok(w))) % 5 == 2, tokkind(w, q) == 1 && tokval(w, q) == fq(m, q, old(ntok(w))).MiningFee.Bytes,
+//@        ite((q - old(ntok(w))) % 5 == 3, tokkind(w, q) == 1 && tokval(w, q) == fq(m, q, old(ntok(w))).RelayFee.Satoshis,
+//@                                         tokkind(w, q) == 1 && tokval(w, q) == fq(m, q, old(ntok(w))).RelayFee.Bytes))))))
+
+//@ func (*FeeQuotes).Deserialize
+//@   serves C20
+//@   inline
+//@   safety index nil alloc allocbound
+//@   loop 0 invariant 0 <= _i && _i <= len(m.FeeQuotes) && m != nil && len(m.FeeQuotes) == count && readn(r, 5 * _i)
+//@   loop 0 invariant sinceloop(forall(k, 0, _i, m.FeeQuotes[k] != nil
+//@        && m.FeeQuotes[k].FeeType == uint8(tokval(r, old(rpos(r)) + 5*k))
+//@        && m.FeeQuotes[k].MiningFee.Satoshis == tokval(r, old(rpos(r)) + 5*k + 1) && m.FeeQuotes[k].MiningFee.Bytes == tokval(r, old(rpos(r)) + 5*k + 2)
+//@        && m.FeeQuotes[k].RelayFee.Satoshis == tokval(r, old(rpos(r)) + 5*k + 3) && m.FeeQuotes[k].RelayFee.Bytes == tokval(r, old(rpos(r)) + 5*k + 4)))
+//@   loop 0 invariant sinceloop(same(m.FeeQuotes) && oldrowsExcept(m.FeeQuotes, arr(m.FeeQuotes)))
+//@   loop 0 invariant sinceloop(forall(p *merchant_api.FeeQuote, !fresh(p) ==> *p == old(*p)))
+
+// ---- SendExpandedTx: bsor blob + index list ----------------------------------------------------
+
+//@ func (SendExpandedTx).Serialize
+//@   inline
+//@   loop 0 invariant 0 <= _i && _i <= len(m.Indexes) && wrote(w, _i)
+//@   loop 0 invariant sinceloop(forall(q, old(ntok(w)), old(ntok(w)) + _i, tokkind(w, q) == 1 && tokval(w, q) == m.Indexes[q - old(ntok(w))]))
+
+//@ func (*SendExpandedTx).Deserialize
+//@   serves C20
+//@   inline
+//@   safety index nil alloc allocbound
+//@   loop 0 invariant 0 <= _i && _i <= len(m.Indexes) && m != nil && len(m.Indexes) == count && readn(r, _i)
+//@   loop 0 invariant sinceloop(forall(k, 0, _i, m.Indexes[k] == uint32(tokval(r, old(rpos(r)) + k))))
+//@   loop 0 invariant sinceloop(same(m.Indexes, m.Tx) && oldrowsExcept(m.Indexes, arr(m.Indexes)))
